@@ -15,7 +15,7 @@ import time
 
 from hypothesis import strategies as st
 
-from .. import hist, refhash, refxml
+from .. import gen, hist, refhash, refxml
 from ..world import ASC, CHAIN, World, require
 
 ID = "C06"
@@ -28,7 +28,7 @@ RULE = (
 )
 ASSUMPTIONS = ["the clock is the real one or freezegun's; no concurrent second writer on the same history"]
 BUDGET = {"quick": (220, 4), "thorough": (24000, 16)}
-REQUIRED = ["gens>=3", "failed_run", "same_second", "nested", "sf", "empty_root_sealed", "non_utc_host_zone"]
+REQUIRED = ["gens>=3", "failed_run", "same_second", "nested", "sf", "empty_root_sealed", "non_utc_host_zone", "same_named_children"]
 
 CFG = {
     "kinds": ["create"] * 6 + ["create_sf"] * 2 + ["put_new", "overwrite", "overwrite", "rm", "rm", "rmtree", "mkdir", "mv", "rmfiles"],
@@ -43,6 +43,14 @@ NAME_RE = re.compile(r"^(\d{4})_(.*)_(\d{4}-\d{2}-\d{2}_\d{6})Z\.mhl$", re.S)
 @st.composite
 def _scn(draw):
     s = draw(hist.scenarios_deep(CFG))
+    if draw(st.integers(0, 3)) == 0 and not ({"A", "B"} & hist.top_names_used(s)):
+        # two nested histories whose folders have the same base name (their manifests get identical names when a parent
+        # run writes both in one clock second)
+        s["tree"]["A"] = {"Clips": {"a.mov": "in A"}}
+        s["tree"]["B"] = {"Clips": {"b.mov": "in B"}}
+        pre = [{"op": "create", "root": r, "formats": draw(gen.formats(2)), "flags": []} for r in draw(st.permutations(["A/Clips", "B/Clips"]))]
+        s["steps"] = pre + s["steps"] + [{"op": "create", "root": "", "formats": draw(gen.formats(2)), "flags": []}]
+        s["same_named_children"] = True
     s["frozen"] = draw(st.sampled_from([None, None, "2020-01-15 13:00:00", "1999-12-31 23:59:59"]))
     s["tz"] = draw(st.sampled_from([None, None, "IST-5:30", "America/Los_Angeles", "Pacific/Kiritimati"])) if s["frozen"] is None else None
     return s
@@ -108,7 +116,10 @@ def observe(w, before, after, res, t0, t1, frozen, ctx, stats, invoked=None):
         # reload through the tool
         from ascmhl.history import MHLHistory
 
-        loaded = MHLHistory.load_from_path(w.abs(h))
+        try:
+            loaded = MHLHistory.load_from_path(w.abs(h))
+        except Exception as e:
+            require(False, "reload", "history %r does not load after the run: %s: %s" % (h, type(e).__name__, str(e)[:200]), res)
         nums = [hl.generation_number for hl in loaded.hash_lists]
         require(nums == list(range(1, len(nums) + 1)) and len(nums) == len(oldnums) + 1, "reload", "history %r reloads as generations %s" % (h, nums), res)
         stats["gens"][h] = len(nums)
@@ -159,6 +170,8 @@ def _run(scn, ctx, stats):
         deep = any(n >= 3 for n in stats["gens"].values())
         same = any(len(set(v)) < len(v) for v in stats["stamps"].values())
         nested = len(w.history_roots()) >= 2
+        if scn.get("same_named_children"):
+            ctx.event("same_named_children")
         for flag, name in ((deep, "gens>=3"), (failed_run, "failed_run"), (same, "same_second"), (nested, "nested"), (sf, "sf")):
             if flag:
                 ctx.event(name)
